@@ -69,6 +69,13 @@ def programs(tier):
                     continue
                 seen.add(key)
                 progs.append(Program(text, srcs, ordered=ordered and node.ordered, family="F04", note="/".join(node.ops) + "/" + tag, env_globals={"dx": dx}))
+        # a suffix of None: the plain name of a shared non-key column belongs to that side only
+        for suf in (("_l", None), (None, "_r"), ("_l", ""), ("", "_r")):
+            for how in ("inner", "left"):
+                base = f"L.merge(R, on='a', how={how!r}, suffixes={suf!r})"
+                plain, other = ("b", "b" + (suf[0] or suf[1]))
+                for sel in (f"[[{plain!r}]]", f"[{plain!r}]", f"[[{other!r}, {plain!r}]]", f"[[{plain!r}, 'e']]", f".{plain}.sum()"):
+                    progs.append(Program(base + sel, [srcL, srcR], ordered=False, family="F04", note=f"merge-suffix-none/{how}", env_globals={"dx": dx}))
         # an array source whose column names are not in lexicographic order (its projection slices the data by position)
         ACOLS = {"d": "i", "a": "i", "c": "i", "b": "i"}
         A = root("A", ACOLS, nparts)
